@@ -52,7 +52,6 @@ theorem certMainJ (hx : ExpandCert) {n m : Nat} {nb : Nbrs} (hnb : NbOK nb n)
     MainJ n m nb (CertA n m nb) (CertN n m nb) (CertN n m nb) (CertM n m nb) where
   step :=
     { na := fun _ _ h => ⟨h.1, h.2.1.any, h.2.2⟩
-      sa := fun _ _ h => ⟨h.1, h.2.1.any, h.2.2⟩
       deage := fun _ s op' _ hc ht _ hage h hd => by
         have hpos : 0 < s.op.age := by
           cases hpth : s.path with
